@@ -327,7 +327,11 @@ func VertexToLine(vertex []v2.Vec, closed bool) []*Line2 {
 		return nil
 	}
 	if closed {
-		if !vertex[0].Equals(vertex[n-1], tolerance) {
+		// Close the outline unless the caller already did: the last vertex IS the first one.
+		// (A last vertex that is merely near the first still needs its closing edge, however
+		// short: without it the outline has a gap and points level with the gap get the
+		// wrong sign at any distance.)
+		if vertex[0] != vertex[n-1] {
 			// append to a copy: the caller's slice may have spare capacity that it still uses
 			vertex = append(vertex[:n:n], vertex[0])
 		}
